@@ -16,12 +16,14 @@ public:
 protected:
     int_type overflow(int_type ch) override {
         if (ch != traits_type::eof() && sk::in_sim()) {
+            sk::Quiet quiet;  // the capture stands in for the process's stdio, which serialises writers itself
             (err_ ? g_err : g_out)[sk::current_pid()].push_back(static_cast<char>(ch));
         }
         return ch;
     }
     std::streamsize xsputn(const char* s, std::streamsize n) override {
         if (sk::in_sim()) {
+            sk::Quiet quiet;
             auto& dst = (err_ ? g_err : g_out)[sk::current_pid()];
             if (dst.size() < (8u << 20)) dst.append(s, static_cast<std::size_t>(n));
         }
